@@ -90,11 +90,33 @@ theorem node?_file {fs : FS} (hp : TreeOK [] fs) {k : Bytes} {d : Bytes} (h : fs
   | none => simp [hg] at h
   | some i =>
     simp only [hg, Option.some.injEq, inoNode] at h
-    rcases hp.kinds k i hg with ⟨hk, _⟩ | ⟨hk, _, d', hd'⟩
+    rcases hp.kinds k i hg with ⟨hk, _⟩ | ⟨_, hnl, _, hdata⟩
     · simp [hk] at h
-    · simp [hk, hd'] at h
+    · cases hkk : (fs.ino i).kind <;> simp [hkk] at h hnl
+      obtain ⟨d', hd'⟩ := hdata hkk
+      simp [hd'] at h
       subst h
-      exact ⟨i, rfl, hk, hd'⟩
+      exact ⟨i, rfl, hkk, hd'⟩
+
+theorem node?_sym {fs : FS} {k tgt : Bytes} (h : fs.node? k = some (.sym tgt)) :
+    ∃ i, fs.get? k = some i ∧ (fs.ino i).kind = .sym ∧ (fs.ino i).link = tgt := by
+  unfold FS.node? at h
+  cases hg : fs.get? k with
+  | none => simp [hg] at h
+  | some i =>
+    simp only [hg, Option.some.injEq, inoNode] at h
+    cases hkk : (fs.ino i).kind <;> simp [hkk] at h
+    exact ⟨i, rfl, hkk, h⟩
+
+theorem node?_special {fs : FS} {k : Bytes} (h : fs.node? k = some .special) :
+    ∃ i, fs.get? k = some i ∧ (fs.ino i).kind = .special := by
+  unfold FS.node? at h
+  cases hg : fs.get? k with
+  | none => simp [hg] at h
+  | some i =>
+    simp only [hg, Option.some.injEq, inoNode] at h
+    cases hkk : (fs.ino i).kind <;> simp [hkk] at h
+    exact ⟨i, rfl, hkk⟩
 
 theorem addFuel_eq : addFuel = 4094 + 2 := rfl
 
@@ -137,7 +159,7 @@ theorem member_step (m : Member) (ms : List Member) (fs : FS) (t t2 : XTree)
         subst hins
         obtain ⟨fs', hadd, hT, hR⟩ := add_member_fresh 4094 (fs := fs) (t := t) (t1 := tA)
           (ino := { kind := .dir, name := joinSlash (init ++ [c]), link := m.link, children := some [], data := some [] })
-          [] true h hrep hg hu hfresh (Or.inl ⟨rfl, rfl⟩) hA
+          [] true h hrep hg hu hfresh (Or.inl ⟨rfl, rfl⟩) (by simp) hA
         refine ⟨fs', ?_, hT, hR⟩
         have hprep : prepMember fs m = some { kind := .dir, name := joinSlash (init ++ [c]), link := m.link, children := some [], data := some [] } := by
           simp [prepMember, hk, hnn, hfresh]
@@ -169,7 +191,7 @@ theorem member_step (m : Member) (ms : List Member) (fs : FS) (t t2 : XTree)
           have hfresh := node?_none hnode
           obtain ⟨fs', hadd, hT, hR⟩ := add_member_fresh 4094 (fs := fs) (t := t) (t1 := tA)
             (ino := { kind := .reg, name := joinSlash (init ++ [c]), link := m.link, children := none, data := some m.data })
-            [] true h hrep hg hu hfresh (Or.inr ⟨rfl, rfl, m.data, rfl⟩) hA
+            [] true h hrep hg hu hfresh (Or.inr ⟨by simp, by simp, rfl, fun _ => ⟨m.data, rfl⟩⟩) (by simp) hA
           refine ⟨fs', ?_, hT, hR⟩
           rw [addMembers, hprep]
           simp only
@@ -179,6 +201,8 @@ theorem member_step (m : Member) (ms : List Member) (fs : FS) (t t2 : XTree)
           rw [hfr, hget] at hins
           cases node with
           | dir => simp at hins
+          | sym x => simp at hins
+          | special => simp at hins
           | file d =>
             simp only [Option.some.injEq] at hins
             subst hins
@@ -194,9 +218,66 @@ theorem member_step (m : Member) (ms : List Member) (fs : FS) (t t2 : XTree)
             rw [addMembers, hprep]
             simp only
             rw [show addFuel = 4095 + 1 from rfl, hadd]
-  | sym => simp [hk] at hins
+  | sym =>
+    simp only [hk] at hins
+    cases hget : alGet t n with
+    | some node => simp [hget] at hins
+    | none =>
+      simp only [hget] at hins
+      rw [hget] at hnode
+      have hfresh := node?_none hnode
+      have hnd : n ≠ dotP := by
+        intro e; rw [e, h.root] at hfresh; cases hfresh
+      obtain ⟨init, c, hg, hu, rfl⟩ := contained_comps hn hnd
+      rw [prefixesOf_dropLast hg] at hins
+      cases hA : xMkdirs t (prefixesAux [] true init) with
+      | none => simp [hA] at hins
+      | some tA =>
+        simp only [hA, Option.map, Option.some.injEq] at hins
+        subst hins
+        have hlc : Contained (normLink .sym (joinSlash (init ++ [c])) m.link) := by
+          simp only [normLink]
+          split
+          · exact contained_normPath _
+          · exact contained_normPath _
+        obtain ⟨fs', hadd, hT, hR⟩ := add_member_fresh 4094 (fs := fs) (t := t) (t1 := tA)
+          (ino := { kind := .sym, name := joinSlash (init ++ [c]), link := normLink .sym (joinSlash (init ++ [c])) m.link, children := none, data := some [] })
+          [] true h hrep hg hu hfresh (Or.inr ⟨by simp, by simp, rfl, by simp⟩) (fun _ => hlc) hA
+        refine ⟨fs', ?_, hT, hR⟩
+        have hprep : prepMember fs m = some { kind := .sym, name := joinSlash (init ++ [c]), link := normLink .sym (joinSlash (init ++ [c])) m.link, children := none, data := some [] } := by
+          simp [prepMember, hk, hnn]
+        rw [addMembers, hprep]
+        simp only
+        rw [addFuel_eq, hadd]
+        simp [alDel]
   | link => simp [hk] at hins
-  | special => simp [hk] at hins
+  | special =>
+    simp only [hk] at hins
+    cases hget : alGet t n with
+    | some node => simp [hget] at hins
+    | none =>
+      simp only [hget] at hins
+      rw [hget] at hnode
+      have hfresh := node?_none hnode
+      have hnd : n ≠ dotP := by
+        intro e; rw [e, h.root] at hfresh; cases hfresh
+      obtain ⟨init, c, hg, hu, rfl⟩ := contained_comps hn hnd
+      rw [prefixesOf_dropLast hg] at hins
+      cases hA : xMkdirs t (prefixesAux [] true init) with
+      | none => simp [hA] at hins
+      | some tA =>
+        simp only [hA, Option.map, Option.some.injEq] at hins
+        subst hins
+        obtain ⟨fs', hadd, hT, hR⟩ := add_member_fresh 4094 (fs := fs) (t := t) (t1 := tA)
+          (ino := { kind := .special, name := joinSlash (init ++ [c]), link := m.link, children := none, data := some [] })
+          [] true h hrep hg hu hfresh (Or.inr ⟨by simp, by simp, rfl, by simp⟩) (by simp) hA
+        refine ⟨fs', ?_, hT, hR⟩
+        have hprep : prepMember fs m = some { kind := .special, name := joinSlash (init ++ [c]), link := m.link, children := none, data := some [] } := by
+          simp [prepMember, hk, hnn]
+        rw [addMembers, hprep]
+        simp only
+        rw [addFuel_eq, hadd]
+        simp [alDel]
 
 /-- The members of a link-free archive, one after the other. -/
 theorem addMembers_plain : ∀ (ms : List Member) (fs : FS) (t t' : XTree),
@@ -232,10 +313,10 @@ theorem rootFS_treeOK : TreeOK [] rootFS := by
   · exact rootFS_inv
   · rfl
   · rfl
-  · intro i
-    cases i with
-    | zero => left; rfl
-    | succ i => right; rw [ino_default (by simp [rootFS])]; rfl
+  · intro i hi
+    have : i = 0 := by simp [rootFS] at hi; omega
+    subst this
+    exact ⟨dotP, rfl⟩
   · intro k i hk
     obtain ⟨rfl, rfl⟩ := hget k i hk
     exact ⟨rfl, by simp [rootFS]⟩
@@ -268,39 +349,42 @@ theorem newFS_plain (ms : List Member) (t : XTree) (hx : extract ms = some t) :
 
 /-! ### Queries on a tree-consistent view -/
 
-theorem TreeOK.stat {fs : FS} (h : TreeOK [] fs) {p : Bytes} (hp : validPath p = true) :
+theorem TreeOK.stat {fs : FS} (h : TreeOK [] fs) {p : Bytes} (hp : validPath p = true) (hns : NoLinkOnPath fs p) :
     statFS fs p = match fs.get? p with
       | some i => .ok (fs.info i)
       | none => .error .notexist := by
   unfold statFS
-  rw [h.getInode_eq' hp]
+  rw [h.getInode_eq' hp hns]
   cases fs.get? p <;> rfl
 
-theorem TreeOK.readDir {fs : FS} (h : TreeOK [] fs) {p : Bytes} (hp : validPath p = true) :
+theorem TreeOK.readDir {fs : FS} (h : TreeOK [] fs) {p : Bytes} (hp : validPath p = true) (hns : NoLinkOnPath fs p) :
     readDirFS fs p = match fs.get? p with
       | some i => .ok (fs.entries i)
       | none => .error .notexist := by
   unfold readDirFS
-  rw [h.getInode_eq' hp]
+  rw [h.getInode_eq' hp hns]
   cases fs.get? p <;> rfl
 
-theorem TreeOK.open {fs : FS} (h : TreeOK [] fs) {p : Bytes} (hp : validPath p = true) :
+theorem TreeOK.open {fs : FS} (h : TreeOK [] fs) {p : Bytes} (hp : validPath p = true) (hns : NoLinkOnPath fs p) :
     openFS fs p = match fs.get? p with
       | none => .err .notexist
       | some i =>
         match (fs.ino i).kind, (fs.ino i).data with
         | .dir, _ => .dir (fs.info i) (fs.entries i)
-        | _, some d => .file (fs.info i) d
-        | _, none => .err .other := by
+        | .reg, some d => .file (fs.info i) d
+        | .reg, none => .err .other
+        | .special, _ => .err .exist
+        | .sym, _ => openAux fs fs.inodes.length (fs.ino i).link
+        | .link, _ => openFS fs p := by
   unfold openFS
-  rw [openAux, h.getInode_eq' hp]
+  rw [openAux, h.getInode_eq' hp hns]
   cases hg : fs.get? p with
   | none => rfl
   | some i =>
     simp only
-    rcases h.plain i with hk | hk
+    rcases h.kinds p i hg with ⟨hk, _⟩ | ⟨_, hnl, _, _⟩
     · simp [hk]
-    · simp only [hk]
+    · cases hkk : (fs.ino i).kind <;> simp [hkk] at hnl ⊢
       cases (fs.ino i).data <;> rfl
 
 /-- A path that is not a valid io/fs path is refused. -/
